@@ -279,6 +279,41 @@ where
     )
 }
 
+/// long pickles (more than 256 memo entries; protocols 1-5 and 0) through `check`
+pub fn long_block<F>(n: usize, seed: u64, trace: verif::Config, check: &F) -> Acc
+where
+    F: Fn(&Config, &CaseResult, &mut Acc) + Sync,
+{
+    par_run(
+        n,
+        Acc::new,
+        |i, acc| {
+            let mut rng = Rng::new(mix(seed ^ 0x10_96, i as u64));
+            let muts = match i % 4 {
+                0 => vec![],
+                1 => vec![Mk::Memoindex],
+                2 => vec![Mk::Offbyone, Mk::Stringlen],
+                _ => subset(rng.below(128) as u32),
+            };
+            let t = 5000 + rng.below(2500) as usize;
+            let cfg = Config {
+                min: t,
+                max: t + 200,
+                mutators: muts,
+                rate: [0.1, 0.5, 1.0][i % 3],
+                ext: i % 5 == 0,
+                buf: i % 7 == 0,
+                order: (i % 3) as u8,
+                ..Config::default_for((5 - i % 6) as u8, Entropy::Seed(rng.next()))
+            };
+            let res = run_case(&cfg, Some(trace));
+            check(&cfg, &res, acc);
+            acc.count("long_pickles_5000_plus_opcodes", 1);
+        },
+        |a, b| a.merge(b),
+    )
+}
+
 pub fn c03(thorough: bool, seed: u64) -> CheckOutput {
     let n = if thorough { 600_000 } else { 40_000 };
     let sp = Space::safe();
@@ -304,6 +339,8 @@ pub fn c03(thorough: bool, seed: u64) -> CheckOutput {
     }
     let st = steered_block(if thorough { 60_000 } else { 6_000 }, seed, true, &check_c03);
     acc.merge(st);
+    let lb = long_block(if thorough { 2400 } else { 240 }, seed, tr, &check_c03);
+    acc.merge(lb);
     let min_exec = if thorough { 1000 } else { 50 };
     for name in &TYPED[..13] {
         if acc.get(&format!("executed_{}", name)) < min_exec {
@@ -532,6 +569,8 @@ pub fn c17(thorough: bool, seed: u64) -> CheckOutput {
     }
     let st = steered_block(if thorough { 60_000 } else { 6_000 }, seed, true, &check_c17);
     acc.merge(st);
+    let lb = long_block(if thorough { 1200 } else { 120 }, seed, tr, &check_c17);
+    acc.merge(lb);
     if acc.get("steps_compared") < 10_000 {
         acc.inconclusive.push("too few step snapshots compared (hook stream empty?)".into());
     }
